@@ -46,9 +46,51 @@ let render (t : twl) : string =
   | TComment s -> Printf.sprintf "C,%s,%s" (hx s) loc
   | TOp o -> Printf.sprintf "%s,,%s" (op_name o) loc
 
+(* sub-command `expr`: same input; tokenizes with the extracted tokenizer, then runs the extracted ParserSkel.parse_expr
+   on the token list.  Output:  <outcome> D<native depth reached>
+     outcome = OK <parser idx after> <ast> | ERR | UNSUP | PANIC | FUEL | LEXERR
+     ast: tag | tag(a,b,..) | "<hex of string>" | [a,b,..] | <integer>      (the Debug rendering of the Rust AST, canonical) *)
+let ocaml_string (t : tag) : string =
+  String.concat "" (List.map (fun c -> String.make 1 (Char.chr (int_of_n c))) (tag_codes t))
+let rec render_sx (b : Buffer.t) (x : sx) : unit =
+  let commas l = List.iteri (fun i y -> if i > 0 then Buffer.add_char b ','; render_sx b y) l in
+  match x with
+  | SN (tag, []) -> Buffer.add_string b (ocaml_string tag)
+  | SN (tag, args) -> Buffer.add_string b (ocaml_string tag); Buffer.add_char b '('; commas args; Buffer.add_char b ')'
+  | SS s -> Buffer.add_char b '"'; Buffer.add_string b (hx s); Buffer.add_char b '"'
+  | SV l -> Buffer.add_char b '['; commas l; Buffer.add_char b ']'
+  | SZ z -> Buffer.add_string b (string_of_zz z)
+
+let expr_line is_alpha is_numeric (l : string) : string =
+  match decode (bytes_of_hex l) with
+  | None -> "NOTUTF8"
+  | Some q ->
+    (match tokenize is_alpha is_numeric q with
+     | Ok (toks, _) ->
+       let r = parse_expr (List.map (fun t -> t.tok) toks) in
+       let o = match r.out with
+         | POk (e, i) -> let b = Buffer.create 256 in render_sx b e; Printf.sprintf "OK %d %s" (int_of_nat i) (Buffer.contents b)
+         | PErr -> "ERR" | PUnsup -> "UNSUP" | PPanic -> "PANIC" | PFuel -> "FUEL" in
+       Printf.sprintf "%s D%d" o (int_of_nat r.dep)
+     | Err _ -> "LEXERR"
+     | Panic -> "LEXPANIC"
+     | Fuel -> "LEXFUEL")
+
 let () =
   let sub = if Array.length Sys.argv > 1 then Sys.argv.(1) else "" in
-  if sub <> "lex" then (prerr_endline "usage: lexer lex"; exit 2);
+  if sub = "expr" then begin
+    let alpha = parse_ranges (input_line stdin) in
+    let numeric = parse_ranges (input_line stdin) in
+    let is_alpha = in_ranges alpha and is_numeric = in_ranges numeric in
+    (try
+      while true do
+        let l = String.trim (input_line stdin) in
+        print_string (expr_line is_alpha is_numeric l); print_char '\n'
+      done
+    with End_of_file -> ());
+    flush stdout; exit 0
+  end;
+  if sub <> "lex" then (prerr_endline "usage: lexer <lex|expr>"; exit 2);
   let alpha = parse_ranges (input_line stdin) in
   let numeric = parse_ranges (input_line stdin) in
   let is_alpha = in_ranges alpha and is_numeric = in_ranges numeric in
